@@ -37,7 +37,8 @@ def decodePure : Nat → Bytes → Option (List Bytes × Nat)
     | .tok adv p => (decodePure k (s.drop adv)).map fun (ps, n) => (p :: ps, adv + n)
     | _ => none
 
-/-- The `bufio.Scanner` loop: `buf` is the unconsumed buffered data, `cs` the results of the
+/-- The `bufio.Scanner` loop without its no-progress guard (specification side; the loop as
+    it is follows below as `decodeScan`): `buf` is the unconsumed buffered data, `cs` the results of the
     future `Read` calls (a zero-length chunk is a zero-length read), the stream ends in EOF
     after the last chunk. The split function is called on whatever is buffered; when it asks
     for more data the next chunk is read and appended. -/
@@ -52,7 +53,36 @@ def decodeChunks : Nat → Bytes → List Bytes → Option (List Bytes × Nat)
     | .tok adv p => (decodeChunks k (buf.drop adv) (c :: cs)).map fun (ps, n) => (p :: ps, adv + n)
     | .err => none
     | _ => decodeChunks (k+1) (buf ++ c) cs
-termination_by k buf cs => (cs.length, k)
+termination_by k _ cs => (cs.length, k)
+
+/-- `maxConsecutiveEmptyReads` of `bufio`: the scanner gives up (io.ErrNoProgress) on the
+    101st zero-length read in a row. -/
+def maxEmptyReads : Nat := 100
+
+/-- The `bufio.Scanner` loop as it is, including its guard against a reader that makes no
+    progress: `e` counts the zero-length reads of the current wait for more data. Once the
+    guard trips the scanner's error is set and `decodeLengthEncodedStrings` returns it, whatever
+    else is buffered or would still arrive. -/
+def decodeScan : Nat → Bytes → List Bytes → Nat → Option (List Bytes × Nat)
+  | 0, _, _, _ => some ([], 0)
+  | k+1, buf, [], _ =>
+    match scan buf true with
+    | .tok adv p => (decodeScan k (buf.drop adv) [] 0).map fun (ps, n) => (p :: ps, adv + n)
+    | _ => none
+  | k+1, buf, c :: cs, e =>
+    match scan buf false with
+    | .tok adv p => (decodeScan k (buf.drop adv) (c :: cs) 0).map fun (ps, n) => (p :: ps, adv + n)
+    | .err => none
+    | _ =>
+      if c.isEmpty then (if e + 1 > maxEmptyReads then none else decodeScan (k+1) buf cs (e + 1))
+      else decodeScan (k+1) (buf ++ c) cs 0
+termination_by k _ cs => (cs.length, k)
+
+/-- A fragmentation a well-behaved reader produces: never more than `maxEmptyReads`
+    zero-length reads in a row (`e` = how many have just been seen). -/
+def stallFree : Nat → List Bytes → Bool
+  | _, [] => true
+  | e, c :: cs => if c.isEmpty then (decide (e + 1 ≤ maxEmptyReads) && stallFree (e + 1) cs) else stallFree 0 cs
 
 structure Request where
   login : Bytes
@@ -89,7 +119,7 @@ def Request.decode (s : Bytes) : Option (Request × Nat) :=
 
 /-- `Request.Decode` on a fragmented stream. -/
 def Request.decodeChunked (cs : List Bytes) : Option (Request × Nat) :=
-  match decodeChunks 4 [] cs with
+  match decodeScan 4 [] cs 0 with
   | some (ps, n) => (Request.ofParts ps).map fun r => (r, n)
   | none => none
 
@@ -122,7 +152,7 @@ def Response.decode (s : Bytes) : Option Response :=
   | _ => none
 
 def Response.decodeChunked (cs : List Bytes) : Option Response :=
-  match decodeChunks 1 [] cs with
+  match decodeScan 1 [] cs 0 with
   | some ([t], _) => Response.ofText t
   | _ => none
 
